@@ -590,6 +590,7 @@ package tcell
 //@   ensures [overlap] forall col int, row int :: 0 <= col && col < w && col < old(s.physw) && 0 <= row && row < h && row < old(s.physh) ==>
 //@              s.front[row*w+col] == old(s.front[row*s.physw+col])
 //@   ensures [cursor] s.cursorx == -1 && s.cursory == -1
+//@   ensures [cursor-query-consistent] s.cursorvis == (s.cursorx >= 0 && s.cursory >= 0 && s.cursorx < s.physw && s.cursory < s.physh)
 //@   ensures [resize-event] settled && changed ==> calls(postEvent) + calls(resize) == 1 || !(s.physw == s.back.w && s.physh == s.back.h)
 //@   loop 1: invariant [r] 0 <= row && len(newc) == w*h && fresh(newc) && !isNil(newc) && len(s.front) == s.physw*s.physh
 //@           invariant [frame] s.physw == old(s.physw) && s.physh == old(s.physh) && s.front == old(s.front)
@@ -600,7 +601,7 @@ package tcell
 //@           invariant [rows] forall cc int, rr int :: 0 <= cc && cc < w && cc < s.physw && 0 <= rr && rr < row && rr < s.physh ==> newc[rr*w+cc] == s.front[rr*s.physw+cc]
 //@           invariant [row] forall cc int :: 0 <= cc && cc < col && cc < w && cc < s.physw ==> newc[row*w+cc] == s.front[row*s.physw+cc]
 //@           decreases w - col
-//@   modifies s.front, s.physw, s.physh, s.cursorx, s.cursory, s.back.w, s.back.h, s.back.cells, s.Mutex
+//@   modifies s.front, s.physw, s.physh, s.cursorx, s.cursory, s.cursorvis, s.back.w, s.back.h, s.back.cells, s.Mutex
 
 // InjectKeyBytes: a byte is declared undecodable only after EVERY prefix length 1..len(b) has been offered to the
 // decoder (a multi-byte character at the very end included); ghost `offered` counts the prefixes offered in the
